@@ -356,3 +356,111 @@ func registerCtxModel(e *Engine) {
 		return IfaceV{}
 	})
 }
+
+// ---- chunked byte source behind a *bufio.Reader (snapshot decoding) ----
+//
+// The writer side hands the harness a list of chunks (one per Write call); the
+// reader side consumes them through ReadByte / Peek / io.ReadFull.  Reads must
+// be aligned with the chunks (a length prefix, then exactly that many bytes),
+// which is how the snapshot format is written and read; anything else is
+// reported as unsupported rather than guessed.
+
+type bufrModel struct {
+	chunks []*Str
+}
+
+func (in *Interp) bufrOf(v Value, pos tokenPos) *bufrModel {
+	if iv, ok := v.(IfaceV); ok {
+		v = iv.V
+	}
+	p, ok := v.(PtrV)
+	if !ok || p.IsNil() {
+		return nil
+	}
+	if o, ok := p.obj.val.(OpaqueV); ok && o.Tag == "bufr" {
+		return o.Data.(*bufrModel)
+	}
+	return nil
+}
+
+func registerBufr(e *Engine) {
+	reg := func(name string, f IntrinsicFn) { e.intr[name] = f }
+	eof := func(in *Interp) Value { return in.externalError("io.EOF") }
+	reg("(*bufio.Reader).ReadByte", func(in *Interp, _ *frame, _ *ssa.Function, args []Value, pos tokenPos) Value {
+		m := in.bufrOf(args[0], pos)
+		if m == nil {
+			in.unsupported("bufio.Reader that is not a harness chunk reader")
+		}
+		if len(m.chunks) == 0 {
+			return TupleV{E: []Value{Sc{in.b.BV(0, 8)}, eof(in)}}
+		}
+		c := m.chunks[0]
+		ln := in.str.Len(c)
+		if !ln.IsConst() || ln.val != 1 {
+			in.unsupported("ReadByte on a chunk that is not a single byte")
+		}
+		m.chunks = m.chunks[1:]
+		return TupleV{E: []Value{Sc{in.str.ByteAt(c, in.b.BV(0, 64))}, IfaceV{}}}
+	})
+	reg("(*bufio.Reader).Peek", func(in *Interp, _ *frame, _ *ssa.Function, args []Value, pos tokenPos) Value {
+		m := in.bufrOf(args[0], pos)
+		n := args[1].(Sc).T
+		if m == nil || !n.IsConst() || n.val != 1 {
+			in.unsupported("bufio.Reader.Peek other than Peek(1) on a harness chunk reader")
+		}
+		if len(m.chunks) == 0 {
+			return TupleV{E: []Value{BytesV{Nil: true, S: &Str{}}, eof(in)}}
+		}
+		c := m.chunks[0]
+		if in.branch(in.b.Eq(in.str.Len(c), in.b.BV(0, 64))) {
+			in.unsupported("Peek on an empty chunk")
+		}
+		return TupleV{E: []Value{BytesV{S: in.str.Slice(c, in.b.BV(0, 64), in.b.BV(1, 64))}, IfaceV{}}}
+	})
+	reg("io.ReadFull", func(in *Interp, _ *frame, _ *ssa.Function, args []Value, pos tokenPos) Value {
+		m := in.bufrOf(args[0], pos)
+		if m == nil {
+			in.unsupported("io.ReadFull on a reader that is not a harness chunk reader")
+		}
+		b := in.b
+		var want *Term
+		switch buf := args[1].(type) {
+		case BytesV:
+			want = in.str.Len(buf.S)
+		case SliceV:
+			want = b.BV(uint64(buf.len), 64)
+		default:
+			in.unsupported("io.ReadFull into %T", args[1])
+		}
+		if len(m.chunks) == 0 {
+			if in.branch(b.Eq(want, b.BV(0, 64))) {
+				return TupleV{E: []Value{Sc{b.BV(0, 64)}, IfaceV{}}}
+			}
+			return TupleV{E: []Value{Sc{b.BV(0, 64)}, eof(in)}}
+		}
+		c := m.chunks[0]
+		if !in.branch(b.Eq(want, in.str.Len(c))) {
+			in.unsupported("io.ReadFull not aligned with the written chunks (buffer of a different size than the next chunk)")
+		}
+		m.chunks = m.chunks[1:]
+		switch buf := args[1].(type) {
+		case BytesV:
+			if !in.lazyBufs[buf.S] {
+				in.unsupported("io.ReadFull into a byte view that is not a fresh read buffer")
+			}
+			*buf.S = *c
+			delete(in.lazyBufs, buf.S)
+		case SliceV:
+			f := in.str.Flat(c)
+			arr := buf.arr.val.(*ArrayV)
+			for k := 0; k < buf.len; k++ {
+				if k < len(f.B) {
+					arr.E[buf.off+k] = Sc{f.B[k]}
+				} else {
+					arr.E[buf.off+k] = Sc{b.BV(0, 8)}
+				}
+			}
+		}
+		return TupleV{E: []Value{Sc{want}, IfaceV{}}}
+	})
+}
